@@ -170,7 +170,16 @@ func (w *World) Genesis() (*Node, error) {
 	if err != nil {
 		return nil, fmt.Errorf("reference genesis: %v", err)
 	}
-	real, epc, err := phase0.GenesisFromEth1(w.Spec, common.Root(eth1), common.Timestamp(p.MinGenesisTime), toRealDeposits(deps), false)
+	var real *phase0.BeaconStateView
+	var epc *common.EpochsContext
+	func() {
+		defer func() {
+			if r := recover(); r != nil {
+				err = fmt.Errorf("panic: %v", r)
+			}
+		}()
+		real, epc, err = phase0.GenesisFromEth1(w.Spec, common.Root(eth1), common.Timestamp(p.MinGenesisTime), toRealDeposits(deps), false)
+	}()
 	if err != nil {
 		return nil, fmt.Errorf("zrnt genesis: %v", err)
 	}
